@@ -48,10 +48,10 @@ def ckd_pub_ref(ctx, G, K, c, i):
     return (IL % N) * G + K, I[32:], IL
 
 
-def ckd(ctx, hardened):
+def ckd(ctx, hardened, kmax=N - 1):
     bip32 = imp("pycoin.key.bip32")
     G = groupstub.make(ctx)
-    k = ctx.sym_int("k", 1, N - 1)
+    k = ctx.sym_int("k", 1, kmax)
     c = ctx.sym_bytes("chain_code", 32)
     i = ctx.sym_int("i", 0, 0x7FFFFFFF)
     idx = i + (0x80000000 if hardened else 0)
@@ -179,6 +179,8 @@ def obligations(tier):
     for h in (False, True):
         obs.append(Ob("C09.ckd.%s" % ("hardened" if h else "normal"), ckd, "every parent key, chain code and index 0..2^31-1 (%s)" % ("hardened" if h else "normal"), dict(hardened=h),
                       expect=["child-secret-equals-CKDpriv"], weight=3))
+        obs.append(Ob("C09.ckd.%s.shortkey" % ("hardened" if h else "normal"), ckd, "parent keys below 2^20 (leading zero bytes in ser256), every chain code and index",
+                      dict(hardened=h, kmax=(1 << 20) - 1), expect=["child-secret-equals-CKDpriv"], weight=2, deadline_s=300))
         for priv in (True, False):
             obs.append(Ob("C09.node.%s.from-%s" % ("hardened" if h else "normal", "private" if priv else "public"), node,
                           "BIP32Node child of an arbitrary node (depth, fingerprint, child number symbolic)", dict(hardened=h, as_private_parent=priv), weight=3))
